@@ -37,13 +37,13 @@ GOENV = {
 #  shards: (quick, thorough); checks: (quick, thorough) value of -rapid.checks
 #  steps: -rapid.steps; timeout: seconds (quick, thorough)
 CFG = {
-    "C01": dict(pkg="core", shards=(8, 16), tests=[
+    "C01": dict(pkg="core", shards=(8, 16), oracle_selfcheck=True, tests=[
         dict(test="^TestC01Step$", checks=(8000, 40000)),
         dict(test="^TestC01Soup$", checks=(60000, 2000000))]),
     "C02": dict(pkg="core", test="^TestC02$", shards=(1, 1), checks=(1, 1)),
     "C03": dict(pkg="core", test="^TestC03$", shards=(1, 1), checks=(1, 1)),
     "C04": dict(pkg="core", test="^TestC04$", shards=(8, 16), checks=(600, 12000)),
-    "C05": dict(pkg="core", test="^TestC05", shards=(8, 16), checks=(8000, 40000)),
+    "C05": dict(pkg="core", test="^TestC05", shards=(8, 16), checks=(8000, 40000), oracle_selfcheck=True),
     "C06": dict(pkg="core", test="^TestC06", shards=(8, 16), checks=(1500, 40000), steps=(60, 80)),
     "C07": dict(pkg="core", test="^TestC07$", shards=(8, 16), checks=(1200, 40000)),
     "C08": dict(pkg="core", test="^TestC08$", shards=(8, 16), checks=(5000, 300000)),
@@ -52,9 +52,18 @@ CFG = {
         dict(test="^TestC10Deterministic$", checks=(400, 20000)),
         dict(test="^TestC10Concurrent$", checks=(60, 3000))]),
     "C11": dict(pkg="core", test="^TestC11$", shards=(8, 16), checks=(2500, 60000)),
+    "C12": dict(pkg="total", test="^TestC12$", shards=(8, 16), checks=(60000, 1500000),
+                fuzz=dict(pkg="total", target="^FuzzTotal$", seconds=(0, 300))),
     "C13": dict(pkg="core", race=True, test="^TestC13$", shards=(8, 16), checks=(40, 500), shrinktime="5s"),
-    "C14": dict(pkg="core", test="^TestC14", shards=(4, 16), checks=(1000, 20000)),
+    "C14": dict(pkg="core", shards=(8, 16), tests=[
+        dict(test="^TestC14Enum$", checks=(2, 40)),
+        dict(test="^TestC14Step$", checks=(1000, 20000)),
+        dict(test="^TestC14Soup$", checks=(20000, 1000000))]),
+    "C15": dict(pkg="core", test="^TestC15$", shards=(4, 16), checks=(20000, 400000)),
     "C16": dict(pkg="core", test="^TestC16$", shards=(1, 1), checks=(1, 1)),
+    "C17": dict(pkg="zexchk", test="^TestC17$", shards=(1, 1), checks=(1, 1)),
+    "C18": dict(pkg="cpm", test="^TestC18$", shards=(8, 16), checks=(1500, 40000)),
+    "C19": dict(pkg="cim", test="^TestC19$", shards=(8, 16), checks=(60, 2500)),
 }
 
 LEVEL_DEFAULT = "exploration"
@@ -153,6 +162,19 @@ def _run_check(prop, tier, cfg, seed, ti, work, t0):
     if cfg.get("race"):
         base_env["GORACE"] = "halt_on_error=0 exitcode=66 log_path=" + os.path.join(work, "race")
     violations = []
+    selfcheck_note = None
+    if cfg.get("oracle_selfcheck"):
+        zb = build(work, "zexchk", False)
+        if zb is not None:
+            e = dict(base_env)
+            e.update({"VERIF_OUT": work})
+            r = subprocess.run([zb, "-test.run", "^TestRefModelZex$", "-test.timeout", "600s"], cwd=work, env=e,
+                               stdout=subprocess.PIPE, stderr=subprocess.STDOUT, text=True)
+            for line in r.stdout.splitlines():
+                if line.startswith("REFMODEL-ZEX:"):
+                    selfcheck_note = "oracle self-validation on this run: " + line[len("REFMODEL-ZEX:"):].strip()
+        if selfcheck_note is None:
+            selfcheck_note = "oracle self-validation could not be run on this tree (internal/zex did not build or the run failed)"
 
     # --- replay tier -------------------------------------------------------
     rdir = os.path.join(VERIF, "replay")
@@ -227,6 +249,35 @@ def _run_check(prop, tier, cfg, seed, ti, work, t0):
             print("TIMEOUT shard %d (inconclusive)" % s)
             inconclusive = True
         procs.append((s, sd, pp, None))
+    fuzz_execs = 0
+    fz = cfg.get("fuzz")
+    if fz and fz["seconds"][ti] > 0 and not any(results[s][1] != 0 for s in results):
+        fd = os.path.join(work, "fuzz")
+        os.makedirs(fd)
+        e = dict(base_env)
+        e.update({"VERIF_OUT": fd, "VERIF_SHARD": "99", "VERIF_NSHARDS": "1"})
+        pkgdir = os.path.join(HARNESS, "checks", fz["pkg"])
+        crashdir = os.path.join(pkgdir, "testdata", "fuzz")
+        cmd = ["go", "test", "-modfile=" + os.path.join(work, "go.mod"), "-run", "^$", "-fuzz", fz["target"],
+               "-fuzztime", "%ds" % fz["seconds"][ti], "./checks/" + fz["pkg"], "-test.fuzzcachedir=" + os.path.join(fd, "cache")]
+        r = subprocess.run(cmd, cwd=HARNESS, env=e, stdout=subprocess.PIPE, stderr=subprocess.STDOUT, text=True)
+        open(os.path.join(fd, "log.txt"), "w").write(r.stdout)
+        import re
+        for m in re.finditer(r"execs: (\d+)", r.stdout):
+            fuzz_execs = max(fuzz_execs, int(m.group(1)))
+        vf = [f for f in os.listdir(fd) if f.startswith("violation-")]
+        for f in vf:
+            violations.append(store_violation(prop, os.path.join(fd, f)))
+        if os.path.isdir(crashdir):
+            shutil.rmtree(crashdir, ignore_errors=True)  # the violation file is the replay artefact
+            try:
+                os.rmdir(os.path.join(pkgdir, "testdata"))
+            except OSError:
+                pass
+        if r.returncode != 0 and not vf:
+            print("FUZZ-STAGE-FAILED without violation file (inconclusive):")
+            print(tail(r.stdout))
+            inconclusive = True
     merged = dict(evaluations=0, distinct=0, labels={}, known={}, known_text={}, samples=[], notes=[], rule="",
                   exhaustive=True, extra={})
     nstats = 0
@@ -290,7 +341,12 @@ def _run_check(prop, tier, cfg, seed, ti, work, t0):
         "wall_s": round(wall, 2),
         "violations": len(violations),
     }
+    if selfcheck_note:
+        ev["assumptions"].append(selfcheck_note)
     ev["coverage"].update(merged["extra"])
+    if fuzz_execs:
+        ev["coverage"]["native_fuzz_execs"] = fuzz_execs
+        ev["coverage"]["evaluations"] += fuzz_execs
     if nstats > 0 or violations:
         os.makedirs(os.path.join(VERIF, "evidence"), exist_ok=True)
         tmp = os.path.join(VERIF, "evidence", ".%s.json.tmp" % prop)
@@ -333,10 +389,19 @@ def run_replay(path):
 
 
 def setup():
-    """Warm the build cache: compile every test package once (plain and -race)."""
+    """Warm the build cache: compile every test package once (plain and -race) and validate the oracle."""
     work = tempfile.mkdtemp(prefix="verif-setup-")
     rc = 0
     try:
+        zb = build(work, "zexchk", False)
+        if zb is None:
+            return 1
+        r = subprocess.run([zb, "-test.run", "^TestRefModelZex$"], cwd=work, env=goenv(), stdout=subprocess.PIPE,
+                           stderr=subprocess.STDOUT, text=True)
+        print(tail(r.stdout, 5))
+        if r.returncode != 0:
+            print("SETUP: reference model does not reproduce the exerciser CRCs")
+            return 1
         seen = set()
         for prop, cfg in sorted(CFG.items()):
             key = (cfg["pkg"], cfg.get("race", False))
